@@ -69,6 +69,10 @@ STRENGTHENED = {
  "C20-f": "as first built (with the retry-after-crash scenarios of round 5)",
  "C17-f": "after collection batches mixed held and new keys (held first, middle, last, repeats) followed by the entry-consistency dump, reload and relock",
  "C19-f": "after the service under test itself could be restarted on its populated directory (restart op) and restarts were followed by duplicate-seed creates",
+ "C02-g": "after a once-per-history sweep with a single transaction naming one of its inputs twice in a NON-adjacent position and paying the duplicated coins out",
+ "C07-g": "after injected execution faults (HistoryDB.ParseBlock fails after Unspents.ProcessBlock ran, the database transaction rolls back) preceded real executions of the same block (AddressCount is part of the digest)",
+ "C22-g": "after streams legal under a limit at the length of one of their messages were run through the real readLoop with reads ending 1-4 bytes before the end of each frame",
+ "C19-g": "after temporary-first orders (temp then twin, unload, third and fourth create) were added for every seeded wallet type",
  "C07-b": "after the balance view (GetBalanceOfAddresses) joined the whole-state digest and the model",
 }
 rows = []
